@@ -173,7 +173,7 @@ func init() {
 	})
 
 	// ---------------- C18 ----------------
-	prC18 := &Profile{Sets: defaultSets, Kinds: []string{"comb", "comb", "sliver", "sliver", "spiky", "rectholes", "grow", "grow", "star", "angle", "border", "moat", "nest", "lobes", "longflat"}, ValidOnly: true, Zoo: true, Repeat: true}
+	prC18 := &Profile{Sets: defaultSets, Kinds: []string{"comb", "comb", "sliver", "sliver", "spiky", "rectholes", "grow", "grow", "star", "angle", "border", "moat", "nest", "lobes", "longflat"}, ValidOnly: true, Huge: true, HugeRate: 4000, Zoo: true, Repeat: true}
 	monC18f := func(c *fw.Ctx, o *Obs, cj []byte) bool {
 		if !o.Valid {
 			c.Rec.Count("skipped:invalid-after-placement")
